@@ -705,13 +705,16 @@ func c12Signature(sc *c12Scenario, p c12Problem, o *c12Outcome) string {
 }
 
 // c12Explore explores one scenario up to maxBound within the time budget.
-func c12Explore(sc *c12Scenario, budget time.Duration, maxBound int) *c12ScnResult {
+func c12Explore(sc *c12Scenario, budget time.Duration, minBound, maxBound int) *c12ScnResult {
 	t0 := time.Now()
 	res := &c12ScnResult{Scenario: sc.Name, Spec: sc.String(), BoundCompleted: -1, Outcomes: map[string]int64{}, PointsMin: 1 << 30}
 	bySig := map[string]*c12Violation{}
 	deadline := t0.Add(budget)
 	var fatal string
-	for b := 0; b <= maxBound && fatal == ""; b++ {
+	if minBound > 0 {
+		res.BoundCompleted = minBound - 1 // completed by an earlier worker of the same run
+	}
+	for b := minBound; b <= maxBound && fatal == ""; b++ {
 		e := &vsched.Explorer{Bound: b, Deadline: deadline}
 		sampleEvery := int64(1)
 		e.Exec = func(prefix []int, expect [][]int) *vsched.Execution {
@@ -835,10 +838,11 @@ func c12Explore(sc *c12Scenario, budget time.Duration, maxBound int) *c12ScnResu
 	return res
 }
 
-// c12worker <scenario> <budget-seconds> <max-bound>: explores one scenario, prints the result as JSON.
+// c12worker <scenario> <budget-seconds> <min-bound> <max-bound>: explores one scenario for the
+// preemption bounds min..max in turn, prints the result as JSON.
 func c12worker(args []string) int {
-	if len(args) < 3 {
-		fmt.Fprintln(os.Stderr, "usage: lsmc c12worker <scenario> <budget-seconds> <max-bound>")
+	if len(args) < 4 {
+		fmt.Fprintln(os.Stderr, "usage: lsmc c12worker <scenario> <budget-seconds> <min-bound> <max-bound>")
 		return 2
 	}
 	sc := c12FindScenario(args[0])
@@ -847,10 +851,11 @@ func c12worker(args []string) int {
 		return 2
 	}
 	sec, _ := strconv.ParseFloat(args[1], 64)
-	mb, _ := strconv.Atoi(args[2])
+	lb, _ := strconv.Atoi(args[2])
+	mb, _ := strconv.Atoi(args[3])
 	c12SetLeaf()
 	vsched.SetWatchdog(30 * time.Second)
-	res := c12Explore(sc, time.Duration(sec*float64(time.Second)), mb)
+	res := c12Explore(sc, time.Duration(sec*float64(time.Second)), lb, mb)
 	b, _ := json.Marshal(res)
 	os.Stdout.Write(append(b, '\n'))
 	os.RemoveAll(filepath.Join(scn.ScratchRoot, fmt.Sprintf("lsmc-%d", os.Getpid())))
@@ -860,8 +865,8 @@ func c12worker(args []string) int {
 // ---------------------------------------------------------------------------
 // parent
 
-func c12RunWorker(self string, sc *c12Scenario, budget time.Duration, maxBound int, kill time.Duration) (*c12ScnResult, string) {
-	cmd := exec.Command("bash", "-c", `ulimit -v 8000000; exec "$0" "$@"`, self, "c12worker", sc.Name, fmt.Sprintf("%.1f", budget.Seconds()), strconv.Itoa(maxBound))
+func c12RunWorker(self string, sc *c12Scenario, budget time.Duration, minBound, maxBound int, kill time.Duration) (*c12ScnResult, string) {
+	cmd := exec.Command("bash", "-c", `ulimit -v 8000000; exec "$0" "$@"`, self, "c12worker", sc.Name, fmt.Sprintf("%.1f", budget.Seconds()), strconv.Itoa(minBound), strconv.Itoa(maxBound))
 	cmd.SysProcAttr = &syscall.SysProcAttr{Setpgid: true}
 	var out, errb bytes.Buffer
 	cmd.Stdout, cmd.Stderr = &out, &errb
@@ -964,26 +969,63 @@ func c12(args []string) int {
 	if v := os.Getenv("C12_MAXBOUND"); v != "" {
 		maxBound, _ = strconv.Atoi(v)
 	}
-	// every scenario gets the same slice of the budget; workers run `par` at a time
-	rounds := (len(scs) + par - 1) / par
-	per := time.Duration(float64(budget) / float64(rounds) * 0.92)
-	if per > 10*time.Minute {
-		per = 10 * time.Minute
-	}
+	// Phase A: bounds 0 and 1 for every scenario (cap per scenario: a third of the budget, at most
+	// 5 minutes). Phase B: the remaining budget is split evenly over the scenarios for bound 2
+	// (and above, up to C12_MAXBOUND). Workers run `par` at a time.
 	results := make([]*c12ScnResult, len(scs))
 	failures := make([]string, len(scs))
-	var wg sync.WaitGroup
-	sem := make(chan struct{}, par)
-	for i, sc := range scs {
-		wg.Add(1)
-		sem <- struct{}{}
-		go func(i int, sc *c12Scenario) {
-			defer wg.Done()
-			defer func() { <-sem }()
-			results[i], failures[i] = c12RunWorker(self, sc, per, maxBound, per+120*time.Second)
-		}(i, sc)
+	runPhase := func(idx []int, per time.Duration, lo, hi int) {
+		var wg sync.WaitGroup
+		sem := make(chan struct{}, par)
+		for _, i := range idx {
+			wg.Add(1)
+			sem <- struct{}{}
+			go func(i int) {
+				defer wg.Done()
+				defer func() { <-sem }()
+				r, f := c12RunWorker(self, scs[i], per, lo, hi, per+120*time.Second)
+				if r == nil {
+					if failures[i] == "" {
+						failures[i] = f
+					}
+					return
+				}
+				results[i] = c12Merge(results[i], r)
+			}(i)
+		}
+		wg.Wait()
 	}
-	wg.Wait()
+	var all []int
+	for i := range scs {
+		all = append(all, i)
+	}
+	capA := budget / 3
+	if capA > 5*time.Minute {
+		capA = 5 * time.Minute
+	}
+	hiA := 1
+	if maxBound < 1 {
+		hiA = maxBound
+	}
+	runPhase(all, capA, 0, hiA)
+	per := capA
+	if maxBound >= 2 {
+		var idx []int
+		for i := range scs {
+			if results[i] != nil && results[i].BoundCompleted >= 1 && len(results[i].HarnessErrors) == 0 && results[i].Stopped == "" {
+				idx = append(idx, i)
+			}
+		}
+		left := budget - tm.Since()
+		rounds := (len(idx) + par - 1) / par
+		if rounds > 0 && left > 5*time.Second {
+			per = time.Duration(float64(left) / float64(rounds) * 0.9)
+			if per > 15*time.Minute {
+				per = 15 * time.Minute
+			}
+			runPhase(idx, per, 2, maxBound)
+		}
+	}
 	exploreWall := tm.S()
 
 	rep := ev.NewReporter("C12")
@@ -1073,27 +1115,28 @@ func c12(args []string) int {
 				"for each scenario ALL schedules with at most b preemptions are executed for b = 0,1,2 in turn (stateless DFS, every execution from a fresh database; a scheduling point before every lock/semaphore/waitgroup/once acquisition, pipe rendezvous and application statement; switching away from a runnable thread is a preemption, switches at blocking points are free); " +
 				"evaluations = complete executions of the real code; states = distinct nodes of the schedule trees (choice prefixes), transitions = scheduling steps executed; " +
 				"distinct_nontrivial = number of distinct (scenario, per-operation results, final replica shape, final instance states) outcome classes observed",
-			"exhaustive":               exhaustive,
-			"exhaustive_scope":         fmt.Sprintf("every selected scenario completed preemption bound >= %d; see per_scenario.bound_completed", minBound),
-			"scenarios":                len(scs),
-			"min_bound_completed":      minBound,
-			"per_scenario":             perScn,
-			"non_colliding_scenarios":  nonColliding,
-			"incomplete_scenarios":     incomplete,
-			"deadlocks":                totDead,
-			"samples":                  samples,
-			"collapsed_points":         totColl,
-			"unmanaged_shim_touches":   totUnm,
-			"non_preemptible_objects":  leaf,
-			"pipe_mode":                c12PipeMode,
-			"fs_points":                c12FSMode,
-			"sql_points":               c12SQLPoints,
-			"race_pass":                race,
-			"harness_errors":           harnessErrs,
-			"exploration_wall_s":       exploreWall,
-			"parallel_workers":         par,
-			"budget_per_scenario_s":    per.Seconds(),
-			"known_finding_detections": rep.KnownCount(),
+			"exhaustive":                 exhaustive,
+			"exhaustive_scope":           fmt.Sprintf("every selected scenario completed preemption bound >= %d; see per_scenario.bound_completed", minBound),
+			"scenarios":                  len(scs),
+			"min_bound_completed":        minBound,
+			"per_scenario":               perScn,
+			"non_colliding_scenarios":    nonColliding,
+			"incomplete_scenarios":       incomplete,
+			"deadlocks":                  totDead,
+			"samples":                    samples,
+			"collapsed_points":           totColl,
+			"unmanaged_shim_touches":     totUnm,
+			"non_preemptible_objects":    leaf,
+			"pipe_mode":                  c12PipeMode,
+			"fs_points":                  c12FSMode,
+			"sql_points":                 c12SQLPoints,
+			"race_pass":                  race,
+			"harness_errors":             harnessErrs,
+			"exploration_wall_s":         exploreWall,
+			"parallel_workers":           par,
+			"phase_a_cap_per_scenario_s": capA.Seconds(),
+			"phase_b_cap_per_scenario_s": per.Seconds(),
+			"known_finding_detections":   rep.KnownCount(),
 		},
 		Assumptions: []string{
 			"cooperative scheduling serialises the threads: data races are invisible to the exploration (hand-offs are happens-before edges); the separate race pass (free-running, -race) is not exhaustive",
@@ -1116,6 +1159,63 @@ func c12(args []string) int {
 		return 2
 	}
 	return code
+}
+
+// c12Merge adds the result of a later worker (higher bounds) of the same scenario to an earlier one.
+func c12Merge(a, b *c12ScnResult) *c12ScnResult {
+	if a == nil {
+		return b
+	}
+	a.Executions += b.Executions
+	a.Transitions += b.Transitions
+	a.States += b.States
+	if b.PointsMin < a.PointsMin && b.Executions > 0 {
+		a.PointsMin = b.PointsMin
+	}
+	if b.PointsMax > a.PointsMax {
+		a.PointsMax = b.PointsMax
+	}
+	if a.Executions > 0 {
+		a.PointsAvg = float64(a.Transitions) / float64(a.Executions)
+	}
+	if b.BoundCompleted > a.BoundCompleted {
+		a.BoundCompleted = b.BoundCompleted
+	}
+	a.Bounds = append(a.Bounds, b.Bounds...)
+	for k, n := range b.Outcomes {
+		a.Outcomes[k] += n
+	}
+	a.Deadlocks += b.Deadlocks
+	have := map[string]*c12Violation{}
+	for _, v := range a.Violations {
+		have[v.Signature] = v
+	}
+	for _, v := range b.Violations {
+		if o := have[v.Signature]; o != nil {
+			o.Count += v.Count
+			continue
+		}
+		a.Violations = append(a.Violations, v)
+	}
+	if len(a.Samples) < 6 {
+		a.Samples = append(a.Samples, b.Samples...)
+	}
+	a.HarnessErrors = append(a.HarnessErrors, b.HarnessErrors...)
+	a.Collapsed += b.Collapsed
+	a.UnmanagedTouches += b.UnmanagedTouches
+	if len(a.UnmanagedSample) == 0 {
+		a.UnmanagedSample = b.UnmanagedSample
+	}
+	if b.MaxThreads > a.MaxThreads {
+		a.MaxThreads = b.MaxThreads
+	}
+	a.OracleEvals += b.OracleEvals
+	a.OracleCacheHits += b.OracleCacheHits
+	a.WallS += b.WallS
+	if b.Stopped != "" {
+		a.Stopped = b.Stopped
+	}
+	return a
 }
 
 // ---------------------------------------------------------------------------
